@@ -897,7 +897,10 @@ static sexp sim_stream_kind_proc(sexp ctx, sexp self, sexp_sint_t n, sexp name) 
   return sexp_c_string(ctx, st->kind.c_str(), -1);
 }
 
-static sexp sim_open_stream_proc(sexp ctx, sexp self, sexp_sint_t n, sexp name) {
+static sexp sim_open_stream_aux(sexp ctx, sexp self, sexp_sint_t n, sexp name, int binary);
+static sexp sim_open_stream_proc(sexp ctx, sexp self, sexp_sint_t n, sexp name) { return sim_open_stream_aux(ctx, self, n, name, 0); }
+static sexp sim_open_binary_stream_proc(sexp ctx, sexp self, sexp_sint_t n, sexp name) { return sim_open_stream_aux(ctx, self, n, name, 1); }
+static sexp sim_open_stream_aux(sexp ctx, sexp self, sexp_sint_t n, sexp name, int binary) {
   Stream* st = stream_by_name(ctx, name);
   if (!st) return sexp_user_exception(ctx, self, "no such simulated stream", name);
   sexp_gc_var2(res, fno);
@@ -914,7 +917,7 @@ static sexp sim_open_stream_proc(sexp ctx, sexp self, sexp_sint_t n, sexp name) 
     fno = sexp_make_fileno(ctx, sexp_make_fixnum(st->fd), SEXP_FALSE);
     res = st->input ? sexp_open_input_file_descriptor(ctx, self, 2, fno, SEXP_FALSE)
                     : sexp_open_output_file_descriptor(ctx, self, 2, fno, SEXP_FALSE);
-    if (sexp_portp(res)) sexp_port_binaryp(res) = 0;
+    if (sexp_portp(res)) sexp_port_binaryp(res) = binary;
   } else {
     res = sexp_user_exception(ctx, self, "custom streams are opened through (chibi io)", name);
   }
@@ -1195,6 +1198,7 @@ static void define_sim_procs(sexp ctx, sexp env) {
   sexp_define_foreign(ctx, env, "sim-open-fd", 1, sim_open_fd_proc);
   sexp_define_foreign(ctx, env, "sim-stream-kind", 1, sim_stream_kind_proc);
   sexp_define_foreign(ctx, env, "sim-open-stream", 1, sim_open_stream_proc);
+  sexp_define_foreign(ctx, env, "sim-open-binary-stream", 1, sim_open_binary_stream_proc);
   sexp_define_foreign(ctx, env, "sim-custom-read", 4, sim_custom_read_proc);
   sexp_define_foreign(ctx, env, "sim-custom-write", 4, sim_custom_write_proc);
   sexp_define_foreign(ctx, env, "sim-gc", 0, sim_gc_proc);
